@@ -61,9 +61,11 @@ func runC15(r *Result, thorough bool) {
 	r.Rule = "type-directed events (nil / empty / binary / duplicate transactions, 0-3 internal transactions, 0-3 block signatures, all parent combinations) created on real cores that gossip; " +
 		"(a) every event a node serves in wire form is read back by another node that knows its parents: same hash, Verify true, same payload; servers include nodes that were reset from a frame; " +
 		"(b) Badger: every event re-read from the database after eviction and after reopen: same hash and signature, same wire info; (c) blocks and frames through encoding/json (FastForwardResponse): same body hash / frame hash, signatures still verify; " +
+		"(e) common.EncodeToString / DecodeFromString and keys.EncodeSignature / DecodeSignature against the byte-level Lean model (Babble.ByteCodec: values, not only success) on keys, hashes, random byte strings, real and random signatures, canonical and re-spelled forms, with Go-side round-trip oracles; " +
 		"(d) a frame's hash after a JSON round trip and after re-insertion of its maps in another order is unchanged. non-trivial: a value with nil and empty slice positions or binary payload"
 	rng := rand.New(rand.NewSource(r.Seed))
 	c15FrameTimestamp(r, rng, thorough)
+	byteCodecCorrespondence(r, rand.New(rand.NewSource(r.Seed+7919)), thorough)
 	runs := 3
 	if thorough {
 		runs = 20
